@@ -14,7 +14,7 @@ ROOT = os.path.dirname(os.path.dirname(os.path.abspath(__file__)))
 # a run against a scratch copy of the repository (VERIF_REPO, used for seeded changes) keeps its output and evidence apart:
 # what is committed under evidence/ always comes from /repo itself
 ALT = os.path.realpath(os.environ.get("VERIF_REPO", "/repo")) != "/repo"
-OUT = os.path.join(ROOT, "out_alt" if ALT else "out")
+OUT = os.environ.get("VERIF_OUT") or os.path.join(ROOT, "out_alt" if ALT else "out")      # (VERIF_OUT: a sweep over the seeded changes keeps apart)
 EVID = os.path.join(OUT, "evidence") if ALT else os.path.join(ROOT, "evidence")
 FINDINGS = os.path.join(ROOT, "known_findings.json")
 
